@@ -180,7 +180,8 @@ func (nb *nativeBuild) confirm(rf *ReplayFile, path string, tries int) *NativeRe
 		case "exit":
 			r.Reproduced = r.Panic == "" && !r.TimedOut && r.Exit != 0 && !strings.Contains(r.Output, "VERIF-DONE")
 		case "unwind":
-			r.Reproduced = r.TimedOut
+			// does not terminate within the time limit, or recursed until the runtime gave up (fatal, unrecoverable)
+			r.Reproduced = r.TimedOut || strings.Contains(r.Output, "stack overflow") || strings.Contains(r.Output, "goroutine stack exceeds")
 		case "race":
 			r.Reproduced = strings.Contains(r.Output, "DATA RACE") || strings.Contains(r.Output, "fatal error: concurrent map") || len(r.Failed) > 0
 		}
